@@ -119,10 +119,13 @@ Fixpoint eat_chain (fuel : nat) (abs : Q) (b : pt) (act : list gp) : option (lis
 Fixpoint pdf_match (abs : Q) (exp act : list gp) : bool :=
   match exp with
   | [] => match act with [] => true | _ => false end
-  | GArcE a _ _ _ _ _ b :: er =>
+  | GArcE a rx ry _ _ _ b :: er =>
+    (* the chain is computed in floats (sincos, sqrt) at the arc's own scale: its end may miss the end point by
+       2^-36 * radius; ReplaceArcs then adds a line to the exact end point *)
+    let abs2 := (abs + (1 # 68719476736) * Qmax (Qabs rx) (Qabs ry))%Q in
     match act with
     | (GCube a' _ _ _ | GLine a' _) :: _ =>
-      pnear2 abs REL7 a a' && match eat_chain 64 abs b act with Some ar => pdf_match abs er ar | None => false end
+      pnear2 abs REL7 a a' && match eat_chain 64 abs2 b act with Some ar => pdf_match abs er ar | None => false end
     | _ => false
     end
   | GQuad a c b :: er => match act with y :: ar => gp_near2 abs REL7 (q2c a c b) y && pdf_match abs er ar | [] => false end
